@@ -29,6 +29,7 @@ import (
 
 	"github.com/Ptt-official-app/go-pttbbs/cache"
 	"github.com/Ptt-official-app/go-pttbbs/cmbbs"
+	"github.com/Ptt-official-app/go-pttbbs/cmbbs/path"
 	"github.com/Ptt-official-app/go-pttbbs/cmsys"
 	"github.com/Ptt-official-app/go-pttbbs/ptt"
 	"github.com/Ptt-official-app/go-pttbbs/ptttype"
@@ -350,6 +351,11 @@ type ctl struct {
 	wakes   []int  // waiters the kernel was seen to hand the semaphore to, not yet written to the schedule
 	inits   int
 	eintr   bool
+	// expiry family: the aloha list of the expirable account is a FIFO; whoever tears the account down
+	// (killUser, before PasswdLock) stays in friendDeleteAll until the write end, held here, is closed
+	fifo      string
+	wfd       int  // write end while a thread is held in the tear-down, else -1
+	cleanSeen bool // the tear-down has been entered once
 }
 
 var (
@@ -403,7 +409,7 @@ func hook(name string) {
 func newCtl(ids []string, procs []int, legacy bool) *ctl {
 	n := len(ids)
 	epochs++
-	c := &ctl{tidOf: map[string]int{}, ids: ids, procs: procs, legacy: legacy, epoch: epochs}
+	c := &ctl{tidOf: map[string]int{}, ids: ids, procs: procs, legacy: legacy, epoch: epochs, wfd: -1}
 	for t := 0; t < n; t++ {
 		c.gate = append(c.gate, make(chan struct{}, 1))
 		c.events = append(c.events, make(chan event, 8))
@@ -626,6 +632,10 @@ func (c *ctl) release(t int) {
 		}
 		held := c.semHeld()
 		c.goOn(t)
+		if c.fifo != "" && !c.cleanSeen {
+			c.watchKill(t, held)
+			return
+		}
 		if held {
 			// a holder is stopped inside the locked section, so this thread can only end up waiting in
 			// semop; its arrival at reg.afterLock is collected when the holder posts. If it reports
@@ -640,10 +650,35 @@ func (c *ctl) release(t int) {
 		if !c.await(t, grace) {
 			c.stalled(t, "stalled taking a free semaphore")
 		}
+	case "killing":
+		// let the tear-down finish (zero record), the thread goes on to the semaphore
+		held := c.semHeld()
+		_ = syscall.Close(c.wfd)
+		c.wfd = -1
+		if held {
+			probes++
+			if !c.watchBlocked(t, len(c.waiters())+1) {
+				c.blocked[t] = true
+				c.state[t] = "blocked"
+			}
+			return
+		}
+		if !c.await(t, grace) {
+			c.stalled(t, "stalled after the clean-up")
+		}
 	case "locked":
+		// every other thread is stopped, blocked or held: what changes in the index now is this thread's
+		// doing. The slot it writes must have been empty (the `pick` hypothesis of the theorems).
+		was := slotIDs()
 		c.goOn(t)
 		if !c.await(t, grace) {
 			c.stalled(t, "stalled under the lock")
+		}
+		for k, id := range slotIDs() {
+			if was[k] != "" && id != was[k] {
+				c.fails = append(c.fails, fail{"pick:slot-not-empty", fmt.Sprintf(
+					"registration %d (id %q) was given slot %d under the lock although it held id %q: now it holds %q", t, c.ids[t], k+1, was[k], id)})
+			}
 		}
 	case "unlocking":
 		ws := c.waiters()
@@ -666,6 +701,38 @@ func (c *ctl) release(t int) {
 		if len(ws) > 1 {
 			c.wakes = append(c.wakes, 50+u)
 		}
+	}
+}
+
+// watchKill: thread t has been released from reg.afterCheck on a full table with a stale .fresh: it is
+// about to walk the table and tear the expirable account down. Positive observations only: the FIFO has
+// a reader (open for writing succeeds) = the thread sits in killUser → "killing"; or it reports; or (the
+// semaphore being taken) the kernel counts it as a waiter.
+func (c *ctl) watchKill(t int, held bool) {
+	deadline := time.Now().Add(grace)
+	for {
+		select {
+		case ev := <-c.events[t]:
+			c.apply(t, ev)
+			return
+		default:
+		}
+		if fd, err := syscall.Open(c.fifo, syscall.O_WRONLY|syscall.O_NONBLOCK, 0); err == nil {
+			c.wfd = fd
+			c.cleanSeen = true
+			c.state[t] = "killing"
+			return
+		}
+		if held && semWaiters() >= len(c.waiters())+1 {
+			c.blocked[t] = true
+			c.state[t] = "blocked"
+			return
+		}
+		if time.Now().After(deadline) {
+			c.stalled(t, "neither entered the clean-up nor reached the lock")
+			return
+		}
+		time.Sleep(100 * time.Microsecond)
 	}
 }
 
@@ -742,12 +809,92 @@ func semValue() int {
 	return v
 }
 
-func reset(fillTo int) {
+// colliders: valid ids whose hash bucket in the id index is the bucket of the empty id, i.e. the bucket
+// that chains the free slots (computed with the repository's own hash function).
+var colliders []string
+
+func findColliders(n int) {
+	e := &ptttype.UserID_t{}
+	h0 := cmsys.StringHashWithHashBits(e[:])
+	for i := 0; len(colliders) < n && i < 40000000; i++ {
+		id := fmt.Sprintf("bk%07d", i)
+		u := &ptttype.UserID_t{}
+		copy(u[:], id)
+		if cmsys.StringHashWithHashBits(u[:]) == h0 {
+			colliders = append(colliders, id)
+		}
+	}
+}
+
+func colliderOf(id string) int {
+	for k, c := range colliders {
+		if fold(c) == fold(id) {
+			return k
+		}
+	}
+	return -1
+}
+
+var expiryTrash []string
+
+// reset builds the table of a history: the fixture, fillers up to fillTo accounts, then the ids of `pre`
+// (followed by a reload of the index from .PASSWDS, so that the bucket chains are in slot order); with
+// victim >= 0 the account in that slot (0-based; a filler) has not logged in for 400 days, .fresh is
+// missing or stale, and the account's aloha list is a FIFO (returned).
+func reset(fillTo int, pre []string, victim int, staleFresh bool) (fifo string) {
+	for _, d := range expiryTrash {
+		_ = os.RemoveAll(d)
+	}
+	expiryTrash = nil
 	_ = os.WriteFile(ptttype.FN_PASSWD, pristine, 0o644)
 	_ = os.WriteFile(ptttype.FN_FRESH, []byte("fresh"), 0o644)
 	if err := env.ResetSHM(); err != nil {
 		panic(err)
 	}
+	defer func() {
+		for _, id := range pre {
+			if err := ptt.SetupNewUser(userOf(id)); err != nil {
+				panic(fmt.Sprintf("pre: %v", err))
+			}
+		}
+		if len(pre) > 0 {
+			if err := env.ResetSHM(); err != nil {
+				panic(err)
+			}
+		}
+		if victim < 0 {
+			return
+		}
+		uid := ptttype.UID(victim + 1)
+		rec, err := cmbbs.PasswdQuery(uid)
+		if err != nil || rec.UserID[0] == 0 {
+			panic(fmt.Sprintf("expiry: no account in slot %d: %v", victim+1, err))
+		}
+		rec.LastLogin = types.NowTS() - 400*86400
+		rec.UserLevel &^= ptttype.PERM_XEMPT
+		if err := cmbbs.PasswdUpdate(uid, rec); err != nil {
+			panic(err)
+		}
+		if staleFresh {
+			old := time.Now().Add(-3 * time.Hour)
+			_ = os.Chtimes(ptttype.FN_FRESH, old, old)
+		} else {
+			_ = os.Remove(ptttype.FN_FRESH)
+		}
+		home := path.SetHomePath(&rec.UserID)
+		_ = os.RemoveAll(home)
+		if err := os.MkdirAll(home, 0o755); err != nil {
+			panic(err)
+		}
+		fifo, err = path.SetHomeFile(&rec.UserID, ptttype.FriendFile[ptttype.FRIEND_ALOHA])
+		if err != nil {
+			panic(err)
+		}
+		if err := syscall.Mkfifo(fifo, 0o600); err != nil {
+			panic(err)
+		}
+		expiryTrash = append(expiryTrash, home, env.Path(ptttype.DIR_TMP, types.CstrToString(rec.UserID[:])))
+	}()
 	// optionally fill the table so that only (MAX_USERS - fillTo) slots stay free
 	n := 0
 	for _, id := range slotIDs() {
@@ -761,6 +908,7 @@ func reset(fillTo int) {
 		}
 		n++
 	}
+	return fifo
 }
 
 type codes struct {
@@ -771,6 +919,9 @@ func (c *codes) of(id string) int {
 	f := fold(id)
 	if f == "" {
 		return 0
+	}
+	if k := colliderOf(id); k >= 0 {
+		return 900 + k
 	}
 	if v, ok := c.m[f]; ok {
 		return v
@@ -797,9 +948,13 @@ type kase struct {
 	fillTo int
 	sched  []int
 	label  string
+	pre    []string // registered before the history, then the index is reloaded (ids of the `colliders` pool)
+	victim int      // expiry family (`regx` ops): 1 + the slot (0-based) of the account to expire; 0 = none
+	stale  bool     // expiry family: .fresh exists but is three hours old (else it is missing)
 }
 
 var skippedNoted bool
+var expiredKeptInIndex int
 var lastStates string
 
 func runSchedule(k kase, nontrivial bool) {
@@ -833,7 +988,7 @@ func asInt(v interface{}) int {
 // schedule-level model does not predict) and should be repeated.
 func runScheduleOnce(k kase, nontrivial bool, final bool) bool {
 	ids, sched := k.ids, k.sched
-	reset(k.fillTo)
+	fifo := reset(k.fillTo, k.pre, k.victim-1, k.stale)
 	n := len(ids)
 	legacy := k.procs == nil
 	procs := k.procs
@@ -841,6 +996,12 @@ func runScheduleOnce(k kase, nontrivial bool, final bool) bool {
 		procs = make([]int, n)
 	}
 	c := newCtl(ids, procs, legacy)
+	c.fifo = fifo
+	defer func() {
+		if c.wfd >= 0 {
+			_ = syscall.Close(c.wfd)
+		}
+	}()
 	setCur(c)
 	before := slotIDs()
 	cd := &codes{m: map[string]int{}}
@@ -872,11 +1033,18 @@ func runScheduleOnce(k kase, nontrivial bool, final bool) bool {
 			}
 			return strings.Join(s, ",")
 		}
-		return strings.Join(c.state, " ") + " | " + f(ni) + " | " + f(nd)
+		out := strings.Join(c.state, " ") + " | " + f(ni) + " | " + f(nd)
+		if k.victim > 0 {
+			out += fmt.Sprintf(" | %d:%d", cd.of(now[k.victim-1]), cd.of(dsk[k.victim-1]))
+		}
+		return out
 	}
 	opOf := func(full []int) string {
 		if legacy {
 			return fmt.Sprintf("reg %d %s %s %s", ptttype.MAX_USERS, join(taken), join(idc), join(full))
+		}
+		if k.victim > 0 {
+			return fmt.Sprintf("regx %d %s %s %s %d %s", ptttype.MAX_USERS, join(taken), join(idc), join(procs), k.victim-1, join(full))
 		}
 		return fmt.Sprintf("regp %d %s %s %s %s", ptttype.MAX_USERS, join(taken), join(idc), join(procs), join(full))
 	}
@@ -1006,7 +1174,21 @@ func runScheduleOnce(k kase, nontrivial bool, final bool) bool {
 		}
 		seen[fold(id)] = k
 	}
+	vict := k.victim - 1
 	for k := range now {
+		if k == vict {
+			// the slot of the account the clean-up before the lock tore down. Whatever the clean-up does with the
+			// index, a request that reported success must own index AND record of its slot.
+			switch {
+			case now[k] == dsk[k]: // both empty, or both the id of a (successful, checked below) request
+			case now[k] == before[k] && dsk[k] == "":
+				// what the source does today: record zeroed, id stays in the index (the slot is never reused)
+				expiredKeptInIndex++
+			default:
+				run.Fail(last, "expiry:slot-state", fmt.Sprintf("slot %d of the expired account %q: the index has %q, .PASSWDS has %q — the clean-up that runs before the passwd lock and a registration under the lock both wrote the slot (%s)", k+1, before[k], now[k], dsk[k], observe()))
+			}
+			continue
+		}
 		if now[k] != dsk[k] {
 			run.Fail(last, "index-disk-disagree", fmt.Sprintf("slot %d: index has %q, .PASSWDS has %q", k+1, now[k], dsk[k]))
 		}
@@ -1017,7 +1199,7 @@ func runScheduleOnce(k kase, nontrivial bool, final bool) bool {
 	// the new ids are exactly the successful requests
 	var newIds, succ []string
 	for k := range now {
-		if before[k] == "" && now[k] != "" {
+		if (before[k] == "" && now[k] != "") || (k == vict && now[k] != "" && now[k] != before[k]) {
 			newIds = append(newIds, fold(now[k]))
 		}
 	}
@@ -1146,7 +1328,7 @@ func peerPhase() {
 	}
 	ids := []string{"peerid01", "PEERID01"}
 	for round := 0; round < 3; round++ {
-		reset(0)
+		reset(0, nil, -1, false)
 		c := newCtl(ids, []int{0, 0}, true)
 		setCur(c)
 		c.release(0)            // -> checked
@@ -1269,6 +1451,10 @@ func main() {
 	verifhook.SetOnPoint(hook)
 	run.Rule = "registration threads in (process, goroutine) pairs: process 0 = the controller, processes 1.. = the harness re-executed, attached to the same BBSHOME / shared memory / passwd semaphore. Every interleaving of the 4 hook-delimited segments (check, semWait, locked section, semPost) of 2 concurrent ptt.SetupNewUser calls in one process (exhaustive) for: same id, ids differing only in case; sampled for different ids, an already registered id, one free slot, 3 registrations (two waiters at once); across processes: directed shapes (a server process starting — PasswdInit — while the lock is held; a second waiter arriving in the process of a waiter while another process holds the lock) and sampled schedules of 2 processes x 1-2 threads with server starts thrown in (thorough: exhaustive for 2 processes x 1 thread, also with a server start at every position, wider samples otherwise). After every schedule element the observed thread states, the ids new in the shared index and the ids new in .PASSWDS are compared with the model replaying the same prefix; with several waiters the one the kernel woke is observed and written into the schedule; distinct = distinct (id set, process assignment, schedule)"
 
+	findColliders(3)
+	if len(colliders) < 3 {
+		run.Note("harness: found no ids in the hash bucket of the empty id; the `bucket` family is skipped")
+	}
 	if run.Replay != "" {
 		for _, l := range hx.ReplayOps(run.Replay) {
 			f := strings.Fields(l)
@@ -1278,23 +1464,39 @@ func main() {
 			if len(f) == 2 && f[0] == "peer" && f[1] == "0" {
 				peerPhase()
 			}
-			if (len(f) == 5 && f[0] == "reg") || (len(f) == 6 && f[0] == "regp") {
-				// ids are replayed by their codes: equal codes = the same id in different letter case
+			if (len(f) == 5 && f[0] == "reg") || (len(f) == 6 && f[0] == "regp") || (len(f) == 7 && f[0] == "regx") {
+				// ids are replayed by their codes: equal codes = the same id in different letter case;
+				// codes 900+k = the k-th id that shares the hash bucket of the empty id
 				var ids []string
 				for i, v := range parseInts(f[3]) {
 					id := fmt.Sprintf("replay%02d", v)
 					if i%2 == 1 {
 						id = strings.ToUpper(id[:1]) + id[1:]
 					}
+					if v >= 900 && v-900 < len(colliders) {
+						id = colliders[v-900]
+					}
 					ids = append(ids, id)
 				}
 				free := 0
-				for _, s := range strings.Split(f[2], ",") {
-					if s == "0" {
+				var pre []string
+				for _, v := range parseInts(f[2]) {
+					if v == 0 {
 						free++
 					}
+					if v >= 900 && v-900 < len(colliders) {
+						pre = append(pre, colliders[v-900])
+					}
 				}
-				k := kase{ids: ids, fillTo: ptttype.MAX_USERS - free, sched: parseInts(f[len(f)-1])}
+				k := kase{ids: ids, fillTo: ptttype.MAX_USERS - free - len(pre), pre: pre, sched: parseInts(f[len(f)-1])}
+				if f[0] == "regx" {
+					k.procs = parseInts(f[4])
+					v, _ := strconv.Atoi(f[5])
+					k.victim = v + 1
+					if len(k.procs) != len(ids) || v < 40 || v >= ptttype.MAX_USERS {
+						continue
+					}
+				}
 				if f[0] == "regp" {
 					k.procs = parseInts(f[4])
 					if len(k.procs) != len(ids) {
@@ -1416,6 +1618,76 @@ func main() {
 	// one free slot, three takers in two processes
 	runSchedule(kase{ids: []string{"wait1", "wait2", "wait3"}, procs: []int{1, 0, 0}, fillTo: full, sched: []int{0, 0, 1, 1, 2, 2}, label: "second-waiter"}, true)
 
+	// ---- 2b. ids in the hash bucket of the empty id (the bucket that chains the free slots) ---------
+	// registered like any other id; then the free slots run out and more registrations arrive: they must
+	// be refused, not be given the slot of the id that shares the bucket. `pre`: the id is in .PASSWDS
+	// already and the index has been reloaded (chains in slot order: the id sits AHEAD of the free slots).
+	if len(colliders) >= 3 {
+		late := []string{"late01", "late02", "LATE01"}
+		seq3 := []int{0, 0, 0, 0, 1, 1, 1, 1, 2, 2, 2, 2}
+		for _, pr := range [][]int{{0, 0, 0}, {0, 1, 1}, {1, 2, 0}} {
+			runSchedule(kase{ids: []string{colliders[0], "late01", "late02"}, procs: pr, fillTo: ptttype.MAX_USERS - 2, sched: seq3, label: "bucket"}, true)
+			runSchedule(kase{ids: []string{colliders[1], colliders[2], "late02"}, procs: pr, fillTo: ptttype.MAX_USERS - 2, sched: seq3, label: "bucket"}, true)
+			runSchedule(kase{ids: late, procs: pr, fillTo: ptttype.MAX_USERS - 3, pre: colliders[:1], sched: seq3, label: "bucket"}, true)
+			runSchedule(kase{ids: late, procs: pr, fillTo: ptttype.MAX_USERS - 4, pre: colliders[:2], sched: []int{2, 2, 2, 2, 0, 1, 0, 1, 0, 0, 1, 1}, label: "bucket"}, true)
+			runSchedule(kase{ids: []string{strings.ToUpper(colliders[0]), "late01", colliders[0]}, procs: pr, fillTo: ptttype.MAX_USERS - 2, pre: colliders[:1], sched: seq3, label: "bucket"}, true)
+		}
+		nb := 20
+		if thorough {
+			nb = 400
+		}
+		exhaustive = false
+		for i := 0; i < nb; i++ {
+			kk := kase{ids: []string{colliders[run.R.Intn(3)], "late01", "late02"}, procs: [][]int{{0, 0, 0}, {0, 1, 1}, {1, 0, 1}}[run.R.Intn(3)],
+				fillTo: ptttype.MAX_USERS - 1 - run.R.Intn(3), sched: randomSchedule(3, 0), label: "bucket"}
+			if run.R.Intn(2) == 0 {
+				kk.pre = colliders[2:3]
+				kk.fillTo--
+				if kk.ids[0] == colliders[2] {
+					kk.ids[0] = colliders[0]
+				}
+			}
+			runSchedule(kk, true)
+		}
+	}
+
+	// ---- 2c. expiry: the clean-up SetupNewUser runs BEFORE the passwd lock ------------------------------
+	// the table is full, .fresh is missing or stale, one account has not logged in for 400 days. The first
+	// registration released from reg.afterCheck finds no free slot, walks the table and tears that account
+	// down (held inside killUser: the account's aloha list is a FIFO); the others register meanwhile.
+	{
+		xids := [][]string{{"expir01", "expir02"}, {"expir01", "EXPIR01"}, {"expir01", "expir02", "expir03"}}
+		xs := [][]int{
+			{0, 1, 0, 1, 1, 1, 0, 0, 0}, // cleaner held in the tear-down, racer runs to completion, cleaner goes on
+			{0, 0, 1, 1, 1, 1, 0, 0, 0},
+			{0, 1, 0, 1, 1, 0, 1, 0, 0, 0}, // racer inside the locked section while the record is zeroed
+			{0, 1, 1, 0, 1, 1, 0, 0, 0},    // racer reaches the lock first
+			{0, 1, 0, 0, 0, 0, 0, 1, 1, 1}, // cleaner alone, racer later
+		}
+		for pi, pr := range [][]int{{0, 0}, {0, 1}, {1, 0}, {1, 2}} {
+			for si, sc := range xs {
+				if !thorough && pi > 1 && si > 1 {
+					continue
+				}
+				runSchedule(kase{ids: xids[(pi+si)%2], procs: pr, fillTo: ptttype.MAX_USERS, victim: 1 + 42 + (pi+si)%7, stale: si%2 == 1, sched: sc, label: "expiry"}, true)
+			}
+		}
+		nx := 30
+		if thorough {
+			nx = 600
+		}
+		for i := 0; i < nx; i++ {
+			n := 2 + run.R.Intn(2)
+			pr := make([]int, n)
+			for t := range pr {
+				pr[t] = run.R.Intn(3)
+			}
+			sc := randomSchedule(n, 0)
+			sc = append(sc, sc[:n]...) // the cleaner needs one release more
+			runSchedule(kase{ids: xids[2][:n], procs: pr, fillTo: ptttype.MAX_USERS, victim: 1 + 41 + run.R.Intn(9), stale: run.R.Intn(2) == 0, sched: sc, label: "expiry"}, true)
+		}
+	}
+
 	// ---- 3. schedules across processes ------------------------------------------------------
 	var cross []cfg
 	tri := []string{"tri1", "TRI1", "tri2"}
@@ -1457,6 +1729,7 @@ func main() {
 	exitPhase()
 	run.Exhaust = exhaustive
 	run.Extra["server_processes_started"] = procStarts
+	run.Extra["expired_account_record_zeroed_but_id_kept_in_index"] = expiredKeptInIndex
 	run.Extra["releases_into_a_taken_semaphore"] = probes
 	run.Extra["of_which_seen_waiting_in_semop"] = confirmed
 	peerPhase()
